@@ -572,7 +572,18 @@ fn expand_states(ctx: &Ctx, root: &Root, parents: &[State], seen: &mut BTreeSet<
     out
 }
 
-fn prepare_subject(root: &Root, states: &[State], si: usize, op: Op, intent: bool) -> Result<Option<Subject>, String> {
+enum PrepErr {
+    /// the engine panicked on the un-faulted (or debug-config) run: a verdict about the engine, not harness trouble
+    EnginePanic(String, String, Value),
+    Machinery(String),
+}
+impl From<String> for PrepErr {
+    fn from(s: String) -> Self {
+        PrepErr::Machinery(s)
+    }
+}
+
+fn prepare_subject(root: &Root, states: &[State], si: usize, op: Op, intent: bool) -> Result<Option<Subject>, PrepErr> {
     let st = &states[si];
     let mut sim = sim_from(&st.snap);
     let Some((manifest, proofs)) = build_op(&mut sim, &root.w, &root.x, op) else { return Ok(None) };
@@ -593,11 +604,23 @@ fn prepare_subject(root: &Root, states: &[State], si: usize, op: Op, intent: boo
         sj.own_key = own_tracker_key(&mut sim_from(&st.snap));
     }
     // un-faulted receipt
-    let base = with_sim(&st.snap, |sim| run_mode(sim, &sj, Mode::Plain)).map_err(|p| format!("un-faulted {} panicked: {p}", op.name()))?;
+    let base = with_sim(&st.snap, |sim| run_mode(sim, &sj, Mode::Plain)).map_err(|p| {
+        PrepErr::EnginePanic(
+            format!("panic:{}", mc_core::last_panic_location()),
+            format!("un-faulted {} panicked instead of producing a receipt: {}", sj.label(), mc_core::truncate(&p, 300)),
+            case_json(st, &sj, Mode::Plain),
+        )
+    })?;
     sj.base_digest = receipt_digest(&base);
     sj.base_class = short_class(&base);
     // lower bound for the number of hook positions: execution-cost applications after boot
-    let dbg = with_sim(&st.snap, |sim| exec_cfg(sim, sj.manifest.clone(), sj.proofs.clone(), ExecutionConfig::for_debug_transaction())).map_err(|p| format!("debug run panicked: {p}"))?;
+    let dbg = with_sim(&st.snap, |sim| exec_cfg(sim, sj.manifest.clone(), sj.proofs.clone(), ExecutionConfig::for_debug_transaction())).map_err(|p| {
+        PrepErr::EnginePanic(
+            format!("panic:{}", mc_core::last_panic_location()),
+            format!("un-faulted {} (debug configuration) panicked: {}", sj.label(), mc_core::truncate(&p, 300)),
+            case_json(st, &sj, Mode::Plain),
+        )
+    })?;
     if let Some(d) = &dbg.debug_information {
         sj.n_lower = d
             .detailed_execution_cost_breakdown
@@ -630,7 +653,7 @@ fn prepare_subject(root: &Root, states: &[State], si: usize, op: Op, intent: boo
         lo = hi;
         hi *= 2;
         if hi > (1 << 22) {
-            return Err(format!("{}: no k up to {hi} reproduces the un-faulted receipt", op.name()));
+            return Err(PrepErr::Machinery(format!("{}: no k up to {hi} reproduces the un-faulted receipt", op.name())));
         }
     }
     while hi - lo > 1 {
@@ -643,7 +666,7 @@ fn prepare_subject(root: &Root, states: &[State], si: usize, op: Op, intent: boo
     }
     sj.n = lo;
     if sj.n < sj.n_lower {
-        return Err(format!("{}: boundary {} below the number of execution-cost applications {} (an injected error was absorbed at the boundary)", op.name(), sj.n, sj.n_lower));
+        return Err(PrepErr::Machinery(format!("{}: boundary {} below the number of execution-cost applications {} (an injected error was absorbed at the boundary)", op.name(), sj.n, sj.n_lower)));
     }
     Ok(Some(sj))
 }
@@ -702,7 +725,8 @@ pub fn run(ctx: Ctx) -> ! {
         match p {
             Ok(Some(s)) => subjects.push(s),
             Ok(None) => {}
-            Err(e) => mc_core::machinery_error(&format!("C02: {e}")),
+            Err(PrepErr::EnginePanic(key, what, case)) => ctx.violation(key, what, case),
+            Err(PrepErr::Machinery(e)) => mc_core::machinery_error(&format!("C02: {e}")),
         }
     }
     let t_prepared = ctx.elapsed_s();
@@ -910,7 +934,12 @@ fn replay(ctx: Ctx, root: &Root) -> ! {
     let sj = match prepare_subject(root, &states, 0, op, case["intent"].as_bool().unwrap_or(false)) {
         Ok(Some(s)) => s,
         Ok(None) => mc_core::machinery_error("replay: op is not injectable"),
-        Err(e) => mc_core::machinery_error(&format!("replay: {e}")),
+        Err(PrepErr::EnginePanic(key, what, _)) => {
+            println!("observed violation: {key} :: {what}");
+            ctx.violation(key, what, case.clone());
+            ctx.finish(Level::FaultEnumeration, "replay", 1, false, Map::new(), &[])
+        }
+        Err(PrepErr::Machinery(e)) => mc_core::machinery_error(&format!("replay: {e}")),
     };
     let mut l = Local::new();
     println!("replaying {} {:?} (N = {}, un-faulted: {})", sj.op.name(), mode, sj.n, sj.base_class);
